@@ -9,9 +9,8 @@ use serde_json::Value;
 use std::borrow::Cow;
 use std::collections::HashMap;
 
-#[derive(Debug, Clone, PartialEq, Default)]
+#[derive(Debug, Clone, PartialEq)]
 pub enum V {
-    #[default]
     Null,
     Bool(bool),
     Int(i64),
@@ -20,6 +19,14 @@ pub enum V {
     Str(String),
     Arr(Vec<V>),
     Obj(Vec<(String, V)>),
+}
+
+/// The trait asks for `Default` but says nothing about its value: a faithful implementation may
+/// return anything.  The engine must use `Queryable::null()` when it means null.
+impl Default for V {
+    fn default() -> Self {
+        V::Arr(vec![V::Int(42)])
+    }
 }
 
 impl From<&str> for V {
